@@ -640,3 +640,711 @@ Section Transformations.
     Qed.
   End EqOneOf.
 End Transformations.
+
+(* ================= 6. a filter and its negation ================= *)
+Section Negation.
+  Variable re : string -> string -> option bool.
+
+  Lemma negate_op_unary op : opk_unary (negate_op op) = opk_unary op.
+  Proof. destruct op; reflexivity. Qed.
+
+  Lemma negate_op_involutive op : negate_op (negate_op op) = op.
+  Proof. destruct op; reflexivity. Qed.
+
+  (* the two dispatch-table entries are exact complements whenever the operator returns at all *)
+  Lemma holds_negate op l r b :
+    opk_unary op = false -> has_negation op = true ->
+    apply_tagged re op l (Some r) true = Ok b ->
+    holds re (negate_op op) l r = negb (holds re op l r).
+  Proof.
+    intros Hu Hn H. unfold holds.
+    destruct op; try discriminate Hu; try discriminate Hn;
+      cbn [negate_op apply_tagged apply_filter_op_with_tagged_argument apply_filter_op negb] in *;
+      unfold not_ in *;
+      match type of H with
+      | bind ?x _ = _ => destruct x; cbn [bind] in *; [now rewrite Bool.negb_involutive|discriminate H]
+      | ?x = Ok _ => rewrite H; cbn [bind]; reflexivity
+      end.
+  Qed.
+
+  (* present candidate, right operand present: exactly one of the two filters passes *)
+  Theorem filter_negation_exact op left r b :
+    opk_unary op = false -> has_negation op = true ->
+    apply_tagged re op left (Some r) true = Ok b ->
+    filter_passes re (negate_op op) true left (Some (TSome r)) =
+    negb (filter_passes re op true left (Some (TSome r))).
+  Proof.
+    intros Hu Hn H. unfold filter_passes. cbn [negb]. rewrite negate_op_unary, Hu.
+    now apply (holds_negate op left r b).
+  Qed.
+
+  Theorem filter_negation_unary op left right :
+    opk_unary op = true ->
+    filter_passes re (negate_op op) true left right = negb (filter_passes re op true left right).
+  Proof.
+    intros Hu. unfold filter_passes. cbn [negb]. rewrite negate_op_unary, Hu.
+    destruct op; try discriminate Hu; unfold holds_unary; cbn [negate_op apply_unary negb orb];
+      [reflexivity|now rewrite Bool.negb_involutive].
+  Qed.
+
+  (* inside a missing @optional scope, or against a tag from a missing @optional scope, BOTH pass *)
+  Theorem filter_negation_missing_scope op left right :
+    filter_passes re op false left right = true /\ filter_passes re (negate_op op) false left right = true.
+  Proof. split; reflexivity. Qed.
+
+  Theorem filter_negation_missing_tag op left present :
+    opk_unary op = false ->
+    filter_passes re op present left (Some TNone) = true /\
+    filter_passes re (negate_op op) present left (Some TNone) = true.
+  Proof.
+    intros Hu. split; apply filter_passes_missing_tag; [assumption|now rewrite negate_op_unary].
+  Qed.
+
+  (* and a panicking operator counts as "no" for both (the reason for the no-panic hypothesis) *)
+  Theorem filter_negation_panic op l r site :
+    opk_unary op = false -> apply_tagged re op l (Some r) true = Panic site ->
+    holds re op l r = false /\ holds re (negate_op op) l r = false.
+  Proof.
+    intros Hu H. unfold holds. rewrite H. split; [reflexivity|].
+    destruct op; try discriminate Hu;
+      cbn [negate_op apply_tagged apply_filter_op_with_tagged_argument apply_filter_op negb] in *;
+      unfold not_ in *;
+      try (rewrite H; reflexivity);
+      match type of H with
+      | bind ?x _ = _ => destruct x; cbn [bind] in *; [discriminate H|reflexivity]
+      | _ => idtac
+      end.
+  Qed.
+End Negation.
+
+(* ================= changes confined to one vertex ================= *)
+Section Local.
+  Variable re : string -> string -> option bool.
+  Variable g : graph.
+  Variable args : list (string * fv).
+
+  Local Notation enter := (enter re g args).
+  Local Notation step_edge := (step_edge re g args).
+  Local Notation sem_comp := (sem_comp re g args).
+  Local Notation sem_steps := (sem_steps re g args).
+  Local Notation sem := (sem re g args).
+  Local Notation fp := (fpass re g args).
+  Local Notation stepf := (step_fn re g args).
+
+  Lemma enter_agree vs vs' ss ss' imp a v cand :
+    types_agree vs vs' -> folds_agree ss ss' -> enter vs ss imp a v cand = enter vs' ss' imp a v cand.
+  Proof.
+    intros Ht Hf. rewrite !enter_fpass. f_equal. apply forallb_ext_in. intros f _.
+    now apply fpass_agree.
+  Qed.
+
+  Definition keeps_key (F : ir_vertex -> ir_vertex) : Prop :=
+    forall v, v_vid (F v) = v_vid v /\ v_type (F v) = v_type v /\ v_from (F v) = v_from v.
+
+  Lemma keeps_key_vid F : keeps_key F -> forall v, v_vid (F v) = v_vid v.
+  Proof. intros H v. apply H. Qed.
+
+  Lemma upd_vertex_types vid F vs : keeps_key F -> types_agree (upd_vertex vid F vs) vs.
+  Proof.
+    intros HF x. rewrite (find_upd_vertex vid F vs x (keeps_key_vid F HF)).
+    destruct (find_vertex vs x) as [v|]; cbn [option_map]; [|reflexivity].
+    destruct (N.eqb (v_vid v) vid); [|reflexivity]. f_equal. apply HF.
+  Qed.
+
+  Lemma upd_edge_folds eid F ss : folds_agree (upd_edge eid F ss) ss.
+  Proof.
+    intros x. induction ss as [|[e|h c] ss IH]; cbn [upd_edge map has_fold]; [reflexivity| |].
+    - destruct (N.eqb (e_eid e) eid); exact IH.
+    - fold (upd_edge eid F ss). now rewrite IH.
+  Qed.
+
+  Lemma find_upd_other vid F vs x v :
+    keeps_key F -> find_vertex vs x = Some v -> x <> vid -> find_vertex (upd_vertex vid F vs) x = Some v.
+  Proof.
+    intros HF E Hne. rewrite (find_upd_vertex vid F vs x (keeps_key_vid F HF)), E. cbn [option_map].
+    pose proof (find_vertex_vid' _ _ _ E) as Hv. destruct (N.eqb_spec (v_vid v) vid); [congruence|reflexivity].
+  Qed.
+
+  (* an edge that does not lead to `vid` does not see the filters of `vid` *)
+  Lemma step_edge_except vid F vs ss' ss imp e a :
+    keeps_key F -> folds_agree ss' ss -> e_to e <> vid ->
+    step_edge (upd_vertex vid F vs) ss' imp e a = step_edge vs ss imp e a.
+  Proof.
+    intros HF Hf Hne. pose proof (upd_vertex_types vid F vs HF) as Ht.
+    unfold Sem.step_edge. pose proof (Ht (e_from e)) as Hfrom.
+    destruct (find_vertex vs (e_to e)) as [tov|] eqn:Eto.
+    - rewrite (find_upd_other vid F vs (e_to e) tov HF Eto Hne).
+      destruct (find_vertex (upd_vertex vid F vs) (e_from e)) as [fromv'|],
+               (find_vertex vs (e_from e)) as [fromv|]; cbn in Hfrom; try discriminate; [|reflexivity].
+      injection Hfrom as ->.
+      apply flat_map_ext. intros c. now rewrite (enter_agree _ vs ss' ss imp a tov c Ht Hf).
+    - rewrite (find_upd_vertex vid F vs (e_to e) (keeps_key_vid F HF)), Eto. cbn [option_map].
+      destruct (find_vertex (upd_vertex vid F vs) (e_from e)), (find_vertex vs (e_from e)); reflexivity.
+  Qed.
+
+  Lemma step_fn_except vid F vs ss' ss imp s a :
+    keeps_key F -> folds_agree ss' ss ->
+    match s with SEdge e => e_to e <> vid | SFold _ _ => True end ->
+    stepf (upd_vertex vid F vs) ss' imp s a = stepf vs ss imp s a.
+  Proof.
+    intros HF Hf Hs. destruct s as [e|h c]; cbn [step_fn].
+    - now apply step_edge_except.
+    - apply step_fold_agree; [now apply upd_vertex_types|assumption].
+  Qed.
+
+  Lemma sem_steps_except vid F vs ss imp : keeps_key F -> forall todo rows,
+    never_entered vid todo = true ->
+    sem_steps (upd_vertex vid F vs) ss imp todo rows = sem_steps vs ss imp todo rows.
+  Proof.
+    intros HF todo rows Hn. apply sem_steps_ext.
+    induction todo as [|s todo IH]; constructor.
+    - intros a. apply step_fn_except; [assumption|intros x; reflexivity|].
+      cbn [never_entered forallb] in Hn. apply andb_prop in Hn. destruct Hn as (Hs & _).
+      destruct s as [e|h c]; [|exact I]. destruct (N.eqb_spec (e_to e) vid); [discriminate|assumption].
+    - apply IH. cbn [never_entered forallb] in Hn. apply andb_prop in Hn. apply Hn.
+  Qed.
+
+  Lemma with_filter_keeps f : keeps_key (with_filter f).
+  Proof. intros v. repeat split. Qed.
+
+  Lemma enter_with_filter vs' vs ss' ss imp a f v cand :
+    types_agree vs' vs -> folds_agree ss' ss ->
+    enter vs' ss' imp a (with_filter f v) cand =
+    enter vs ss imp a v cand && fp vs ss imp a (v_vid v) (v_type v) cand f.
+  Proof.
+    intros Ht Hf. rewrite (enter_agree vs' vs ss' ss imp a _ cand Ht Hf). rewrite !enter_fpass.
+    cbn [with_filter set_filters v_filters v_vid v_type]. rewrite forallb_app. cbn [forallb].
+    rewrite Bool.andb_true_r, Bool.andb_assoc. reflexivity.
+  Qed.
+
+  (* a filter on the root vertex of a component keeps exactly the root candidates that satisfy it *)
+  Lemma sem_comp_add_filter_root root vs ss outs f rv imp r :
+    find_vertex vs root = Some rv -> never_entered root ss = true ->
+    sem_comp (add_filter root f (mkComp root vs ss outs)) imp r =
+    if fp vs ss imp (Asg [] []) root (v_type rv) r f then sem_comp (mkComp root vs ss outs) imp r else [].
+  Proof.
+    intros Er Hn. cbn [add_filter]. rewrite !sem_comp_eq.
+    rewrite (find_upd_vertex root (with_filter f) vs root (keeps_key_vid _ (with_filter_keeps f))), Er.
+    cbn [option_map]. pose proof (find_vertex_vid' _ _ _ Er) as Hvid. rewrite Hvid, N.eqb_refl.
+    rewrite (enter_with_filter _ vs ss ss imp (Asg [] []) f rv r
+               (upd_vertex_types root _ vs (with_filter_keeps f)) (fun x => eq_refl)).
+    rewrite Hvid. rewrite (sem_steps_except root _ vs ss imp (with_filter_keeps f) ss _ Hn).
+    destruct (enter vs ss imp (Asg [] []) rv r), (fp vs ss imp (Asg [] []) root (v_type rv) r f); reflexivity.
+  Qed.
+
+  (* ---------- 6'. a filter on the root vertex and its negation partition the rows ---------- *)
+  Lemma fpass_negate vs ss imp a vid ty s f :
+    arg_local vid f = true -> has_negation (vf_op f) = true -> filter_no_panic re g args vid ty f ->
+    fp vs ss imp a vid ty (Some s) (negate_filter f) = negb (fp vs ss imp a vid ty (Some s) f).
+  Proof.
+    intros Hl Hn Hnp. unfold fpass. cbn [negate_filter vf_op vf_field vf_arg present].
+    destruct (opk_unary (vf_op f)) eqn:Hu; [now apply filter_negation_unary|].
+    specialize (Hnp s vs ss imp a). unfold arg_local in Hl.
+    destruct (vf_arg f) as [[[cf|ff]|x t]|]; cbn [option_map arg_value] in *; try congruence.
+    - rewrite Hl in *. destruct (Hnp _ eq_refl) as (b & Hb). cbn [prop_of] in *.
+      now apply (filter_negation_exact re (vf_op f) _ _ b).
+    - destruct (Hnp _ eq_refl) as (b & Hb). cbn [prop_of].
+      now apply (filter_negation_exact re (vf_op f) _ _ b).
+  Qed.
+
+  Theorem filter_negation_partitions_root q root vs ss outs rv f :
+    q_comp q = mkComp root vs ss outs ->
+    find_vertex vs root = Some rv -> never_entered root ss = true ->
+    arg_local root f = true -> has_negation (vf_op f) = true ->
+    filter_no_panic re g args root (v_type rv) f ->
+    Permutation (sem q)
+                (sem (with_comp q (add_filter root f (q_comp q))) ++
+                 sem (with_comp q (add_filter root (negate_filter f) (q_comp q)))).
+  Proof.
+    intros Hq Er Hn Hl Hneg Hnp. unfold Sem.sem. cbn [with_comp q_comp q_root_name q_root_params].
+    set (c := q_comp q).
+    assert (Hproj : forall f0 a, project g (add_filter root f0 c) a = project g c a).
+    { intros f0 a. apply (project_agree re g args); [apply add_filter_le|]. now destruct c. }
+    rewrite (map_ext (fun a => sort_row (project g (add_filter root f c) a))
+                     (fun a => sort_row (project g c a))) by (intros a; now rewrite Hproj).
+    rewrite (map_ext (fun a => sort_row (project g (add_filter root (negate_filter f) c) a))
+                     (fun a => sort_row (project g c a))) by (intros a; now rewrite Hproj).
+    rewrite <- map_app. apply Permutation_map.
+    set (starts := g_starts g (q_root_name q) (q_root_params q)).
+    eapply perm_trans; [|apply flat_map_app_perm].
+    rewrite (flat_map_ext (fun s => sem_comp c [] (Some s))
+                          (fun s => sem_comp (add_filter root f c) [] (Some s) ++
+                                    sem_comp (add_filter root (negate_filter f) c) [] (Some s))); [apply Permutation_refl|].
+    intros s. subst c. rewrite Hq.
+    rewrite !(sem_comp_add_filter_root root vs ss outs _ rv [] (Some s) Er Hn).
+    rewrite (fpass_negate vs ss [] (Asg [] []) root (v_type rv) s f Hl Hneg Hnp).
+    destruct (fp vs ss [] (Asg [] []) root (v_type rv) (Some s) f); cbn [negb app]; [now rewrite app_nil_r|reflexivity].
+  Qed.
+End Local.
+
+(* ================= 4. a parameterised plain edge = the base edge + a filter ================= *)
+Lemma filter_true_id {A} (p : A -> bool) (l : list A) : (forall x, p x = true) -> filter p l = l.
+Proof. intros H. induction l as [|x l IH]; cbn [filter]; [reflexivity|]. now rewrite H, IH. Qed.
+
+Lemma filter_filter {A} (p q : A -> bool) (l : list A) :
+  filter p (filter q l) = filter (fun x => q x && p x) l.
+Proof.
+  induction l as [|x l IH]; [reflexivity|]. cbn [filter].
+  destruct (q x); cbn [filter andb]; [destruct (p x)|]; now rewrite IH.
+Qed.
+
+(* datasets (Graph.v): a parameterised edge yields the neighbours of the unparameterised edge that
+   the parameters keep, in the same order *)
+Theorem ds_nbrs_params d ty name ps v :
+  ds_nbrs d ty name ps v = filter (params_keep ps) (ds_nbrs d ty name [] v).
+Proof.
+  unfold ds_nbrs. destruct (lookup_N v (d_edges d)) as [es|]; [|reflexivity].
+  destruct (lookup_str name es) as [ns|]; [|reflexivity].
+  now rewrite (filter_true_id (params_keep []) ns) by reflexivity.
+Qed.
+
+Theorem dataset_params_filter_nbrs d : params_filter_nbrs (graph_of_dataset d).
+Proof. intros ty name ps v. apply ds_nbrs_params. Qed.
+
+(* adding one more parameter filters the neighbour list further *)
+Theorem ds_nbrs_more_params d ty name p ps v :
+  ds_nbrs d ty name (p :: ps) v = filter (param_keeps p) (ds_nbrs d ty name ps v).
+Proof.
+  rewrite (ds_nbrs_params d ty name (p :: ps)), (ds_nbrs_params d ty name ps), filter_filter.
+  apply filter_ext. intros n. cbn [params_keep forallb]. apply Bool.andb_comm.
+Qed.
+
+Lemma flat_map_ext_in' {A B} (f h : A -> list B) (l : list A) :
+  (forall x, In x l -> f x = h x) -> flat_map f l = flat_map h l.
+Proof.
+  induction l as [|x l IH]; intros H; [reflexivity|]. cbn [flat_map].
+  rewrite (H x (or_introl eq_refl)), IH; [reflexivity|]. intros y Hy. apply H. now right.
+Qed.
+
+Lemma flat_map_map_l {A B C} (f : A -> B) (h : B -> list C) (l : list A) :
+  flat_map h (map f l) = flat_map (fun x => h (f x)) l.
+Proof. induction l as [|x l IH]; [reflexivity|]. cbn [map flat_map]. now rewrite IH. Qed.
+
+Section ParamEdge.
+  Variable re : string -> string -> option bool.
+  Variable g : graph.
+  Variable args : list (string * fv).
+  Hypothesis Hg : params_filter_nbrs g.
+
+  Local Notation enter := (enter re g args).
+  Local Notation step_edge := (step_edge re g args).
+  Local Notation sem_comp := (sem_comp re g args).
+  Local Notation sem_steps := (sem_steps re g args).
+  Local Notation sem := (sem re g args).
+  Local Notation fp := (fpass re g args).
+  Local Notation stepf := (step_fn re g args).
+
+  Variables (eid tovid : N) (ps' : params) (f : vfilter) (keepf : N -> bool).
+  (* the vertices that occur as neighbours at all *)
+  Variable dom : N -> Prop.
+  Hypothesis Hdom : forall ty name v n, In n (g_nbrs g ty name [] v) -> dom n.
+  (* on those, the added filter depends only on the destination vertex itself *)
+  Hypothesis Hf : forall vs ss imp a ty n, dom n -> fp vs ss imp a tovid ty (Some n) f = keepf n.
+
+  Definition edge_splits (e : ir_edge) : Prop :=
+    e_to e = tovid /\ e_rec e = None /\ e_optional e = false /\
+    forall n, params_keep (e_params e) n = params_keep ps' n && keepf n.
+
+  Lemma plain_cands (l : list vertex) :
+    match l with [] => [] | v0 :: l0 => map Some (v0 :: l0) end = map (@Some vertex) l.
+  Proof. destruct l; reflexivity. Qed.
+
+  Lemma step_edge_param vs ss' ss imp e a :
+    folds_agree ss' ss -> edge_splits e ->
+    step_edge (upd_vertex tovid (with_filter f) vs) ss' imp (set_params ps' e) a = step_edge vs ss imp e a.
+  Proof.
+    intros Hfo (Hto & Hrec & Hopt & Hkeep).
+    pose proof (upd_vertex_types tovid _ vs (with_filter_keeps f)) as Ht.
+    unfold Sem.step_edge. cbn [set_params e_from e_to e_rec e_optional e_name e_params].
+    rewrite Hrec, Hopt, Hto. pose proof (Ht (e_from e)) as Hfrom.
+    rewrite (find_upd_vertex tovid (with_filter f) vs tovid (keeps_key_vid _ (with_filter_keeps f))).
+    destruct (find_vertex vs tovid) as [tov|] eqn:Eto; cbn [option_map].
+    2:{ destruct (find_vertex (upd_vertex tovid (with_filter f) vs) (e_from e)), (find_vertex vs (e_from e)); reflexivity. }
+    pose proof (find_vertex_vid' _ _ _ Eto) as Hvid. rewrite Hvid, N.eqb_refl.
+    destruct (find_vertex (upd_vertex tovid (with_filter f) vs) (e_from e)) as [fromv'|],
+             (find_vertex vs (e_from e)) as [fromv|]; cbn in Hfrom; try discriminate; [|reflexivity].
+    injection Hfrom as ->.
+    destruct (lookup_N (e_from e) (a_v a)) as [[v|]|].
+    - rewrite (Hg (v_type fromv) (e_name e) ps' v), (Hg (v_type fromv) (e_name e) (e_params e) v).
+      rewrite !plain_cands, !flat_map_map_l, !flat_map_filter_cond.
+      apply flat_map_ext_in'. intros n Hn.
+      rewrite (enter_with_filter re g args _ vs ss' ss imp a f tov (Some n) Ht Hfo), Hvid, Hf, Hkeep
+        by (eapply Hdom; exact Hn).
+      destruct (params_keep ps' n), (keepf n), (enter vs ss imp a tov (Some n)); reflexivity.
+    - cbn [flat_map]. now rewrite !enter_missing_optional.
+    - cbn [flat_map]. now rewrite !enter_missing_optional.
+  Qed.
+
+  Lemma steps_param vs ss' ss imp : folds_agree ss' ss -> forall todo,
+    (forall e, In (SEdge e) todo -> e_eid e = eid -> edge_splits e) ->
+    forallb (fun s => match s with
+                      | SEdge e => N.eqb (e_eid e) eid || negb (N.eqb (e_to e) tovid)
+                      | SFold _ _ => true
+                      end) todo = true ->
+    Forall2 (fun s' s => forall a, stepf (upd_vertex tovid (with_filter f) vs) ss' imp s' a = stepf vs ss imp s a)
+            (upd_edge eid (set_params ps') todo) todo.
+  Proof.
+    intros Hfo todo. induction todo as [|s todo IH]; intros He Hall; cbn [upd_edge map]; constructor.
+    - intros a. cbn [forallb] in Hall. apply andb_prop in Hall. destruct Hall as (Hs & _).
+      destruct s as [e|h c].
+      + destruct (N.eqb_spec (e_eid e) eid) as [Heq|Hne].
+        * cbn [step_fn]. apply step_edge_param; [assumption|]. apply He; [now left|assumption].
+        * apply step_fn_except; [apply with_filter_keeps|assumption|].
+          cbn [orb] in Hs. destruct (N.eqb_spec (e_to e) tovid); [discriminate|assumption].
+      + apply step_fn_except; [apply with_filter_keeps|assumption|exact I].
+    - apply IH.
+      + intros e Hin. apply He. now right.
+      + cbn [forallb] in Hall. apply andb_prop in Hall. apply Hall.
+  Qed.
+
+  (* the query with the parameter replaced by a filter on the destination vertex has exactly the
+     same assignments, in the same order *)
+  Theorem param_edge_is_filter_asg root vs ss outs imp r :
+    entered_only_by eid tovid (mkComp root vs ss outs) = true ->
+    (forall e, In (SEdge e) ss -> e_eid e = eid -> edge_splits e) ->
+    sem_comp (param_to_filter eid ps' tovid f (mkComp root vs ss outs)) imp r = sem_comp (mkComp root vs ss outs) imp r.
+  Proof.
+    intros Hent He. unfold entered_only_by in Hent. cbn [c_root c_steps] in Hent.
+    apply andb_prop in Hent. destruct Hent as (Hroot & Hall).
+    cbn [param_to_filter]. rewrite !sem_comp_eq.
+    pose proof (upd_vertex_types tovid _ vs (with_filter_keeps f)) as Ht.
+    pose proof (upd_edge_folds eid (set_params ps') ss) as Hfo.
+    rewrite (find_upd_vertex tovid (with_filter f) vs root (keeps_key_vid _ (with_filter_keeps f))).
+    destruct (find_vertex vs root) as [rv|] eqn:Er; cbn [option_map]; [|reflexivity].
+    pose proof (find_vertex_vid' _ _ _ Er) as Hvid. rewrite Hvid.
+    destruct (N.eqb root tovid); [discriminate|].
+    rewrite (enter_agree re g args _ vs _ ss imp (Asg [] []) rv r Ht Hfo).
+    destruct (enter vs ss imp (Asg [] []) rv r); [|reflexivity].
+    apply sem_steps_ext. now apply steps_param.
+  Qed.
+
+  Theorem param_edge_is_filter_rows q root vs ss outs :
+    q_comp q = mkComp root vs ss outs ->
+    entered_only_by eid tovid (q_comp q) = true ->
+    (forall e, In (SEdge e) ss -> e_eid e = eid -> edge_splits e) ->
+    sem (with_comp q (param_to_filter eid ps' tovid f (q_comp q))) = sem q.
+  Proof.
+    intros Hq Hent He. unfold Sem.sem. cbn [with_comp q_comp q_root_name q_root_params]. rewrite Hq in *.
+    rewrite (flat_map_ext _ (fun s => sem_comp (mkComp root vs ss outs) [] (Some s)))
+      by (intros s; now apply param_edge_is_filter_asg).
+    apply map_ext. intros a. f_equal. cbn [param_to_filter project]. f_equal.
+    - apply map_ext. intros [n cf]. cbn [fst snd]. f_equal.
+      pose proof (upd_vertex_types tovid _ vs (with_filter_keeps f) (cf_vid cf)) as Ht.
+      destruct (find_vertex (upd_vertex tovid (with_filter f) vs) (cf_vid cf)), (find_vertex vs (cf_vid cf));
+        cbn in Ht; try discriminate; [|reflexivity].
+      injection Ht as ->. reflexivity.
+    - clear. induction ss as [|[e|h c] t IH]; cbn [upd_edge map]; [reflexivity| |].
+      + destruct (N.eqb (e_eid e) eid); exact IH.
+      + fold (upd_edge eid (set_params ps') t). now rewrite IH.
+  Qed.
+End ParamEdge.
+
+(* the instance tested by the harness: `edge(lo: k)`  =  `edge` + `id @filter(op: ">=", value: ["$p"])`, p = k *)
+Section LoParam.
+  Variable re : string -> string -> option bool.
+  Variable g : graph.
+  Variable args : list (string * fv).
+  Variable dom : N -> Prop.
+  Hypothesis Hid : forall ty n, dom n -> int_val (g_prop g ty "id" n) = Some (Z.of_N n).
+  Variables (p : string) (kv : fv) (k : Z) (fty t : ty).
+  Hypothesis Hp : lookup_str p args = Some kv.
+  Hypothesis Hk : int_val kv = Some k.
+
+
+  Lemma id_ge_fpass vs ss imp a vid ty n :
+    dom n -> fpass re g args vs ss imp a vid ty (Some n) (id_ge_filter p fty t) = Z.leb k (Z.of_N n).
+  Proof.
+    intros Hn. unfold fpass, id_ge_filter. cbn [vf_op vf_field vf_arg present option_map arg_value prop_of]. rewrite Hp.
+    unfold filter_passes, holds. cbn [negb opk_unary apply_tagged apply_filter_op_with_tagged_argument apply_filter_op].
+    now rewrite (ge_ints _ _ _ _ (Hid ty n Hn) Hk).
+  Qed.
+
+  Lemma lo_param_keeps n : param_keeps ("lo", kv) n = Z.leb k (Z.of_N n).
+  Proof. unfold param_keeps. cbn [fst snd]. destruct kv; try discriminate Hk; injection Hk as ->; reflexivity. Qed.
+
+  Lemma lo_params_split ps1 ps2 n :
+    params_keep (ps1 ++ ("lo", kv) :: ps2) n = params_keep (ps1 ++ ("lo", Null) :: ps2) n && Z.leb k (Z.of_N n).
+  Proof.
+    unfold params_keep. rewrite !forallb_app. cbn [forallb]. rewrite lo_param_keeps.
+    change (param_keeps ("lo", Null) n) with true.
+    destruct (forallb (fun p0 => param_keeps p0 n) ps1), (forallb (fun p0 => param_keeps p0 n) ps2), (Z.leb k (Z.of_N n)); reflexivity.
+  Qed.
+End LoParam.
+
+(* ================= 7. renaming outputs ================= *)
+Section Rename.
+  Variable re : string -> string -> option bool.
+  Variable g : graph.
+  Variable args : list (string * fv).
+  Variable rho : string -> string.
+
+  Local Notation enter := (enter re g args).
+  Local Notation step_edge := (step_edge re g args).
+  Local Notation step_fold := (step_fold re g args).
+  Local Notation sem_comp := (sem_comp re g args).
+  Local Notation sem_steps := (sem_steps re g args).
+  Local Notation sem := (sem re g args).
+  Local Notation stepf := (step_fn re g args).
+
+  Lemma rename_comp_eq root vs ss outs :
+    rename_comp rho (mkComp root vs ss outs) =
+    mkComp root vs (rename_steps rho ss) (map (fun o => (rho (fst o), snd o)) outs).
+  Proof.
+    cbn [rename_comp]. f_equal.
+    induction ss as [|[e|h c] t IH]; cbn [rename_steps]; [reflexivity| |]; now rewrite IH.
+  Qed.
+
+  Lemma rename_steps_folds ss : folds_agree (rename_steps rho ss) ss.
+  Proof.
+    intros x. induction ss as [|[e|h c] t IH]; cbn [rename_steps has_fold rename_hdr fo_eid]; [reflexivity|exact IH|].
+    now rewrite IH.
+  Qed.
+
+  Lemma step_edge_agree vs ss' ss imp e a :
+    folds_agree ss' ss -> step_edge vs ss' imp e a = step_edge vs ss imp e a.
+  Proof.
+    intros Hf. apply sublist_antisym.
+    - apply step_edge_mono; [apply verts_le_refl|assumption|apply edge_le_refl].
+    - apply step_edge_mono; [apply verts_le_refl|intros x; symmetry; apply Hf|apply edge_le_refl].
+  Qed.
+
+  Lemma step_fold_sub_ext vs ss imp h (s1 s2 : imports -> option vertex -> list asg) a :
+    (forall i r, s1 i r = s2 i r) -> step_fold vs ss imp h s1 a = step_fold vs ss imp h s2 a.
+  Proof.
+    intros Hs. unfold Sem.step_fold.
+    destruct (find_vertex vs (fo_from h)) as [fromv|]; [|reflexivity].
+    destruct (lookup_N (fo_from h) (a_v a)) as [[v|]|]; [|reflexivity|reflexivity].
+    rewrite (flat_map_ext (fun n => s1 _ (Some n)) (fun n => s2 _ (Some n))) by (intros n; apply Hs).
+    reflexivity.
+  Qed.
+
+  Lemma rename_steps_fn vs ss' ss0 imp : folds_agree ss' ss0 -> forall todo,
+    Forall (fun s => match s with
+                     | SFold _ sub => forall imp r, sem_comp (rename_comp rho sub) imp r = sem_comp sub imp r
+                     | SEdge _ => True
+                     end) todo ->
+    Forall2 (fun s' s => forall a, stepf vs ss' imp s' a = stepf vs ss0 imp s a) (rename_steps rho todo) todo.
+  Proof.
+    intros Hf todo IH. induction IH as [|s t Hs _ IHt]; cbn [rename_steps]; [constructor|].
+    destruct s as [e|h sub]; constructor; try exact IHt; intros a; cbn [step_fn].
+    - now apply step_edge_agree.
+    - rewrite (step_fold_agree re g args vs vs ss' ss0 imp _ _ a (fun x => eq_refl) Hf).
+      rewrite (step_fold_sub_ext vs ss0 imp _ _ (sem_comp sub) a Hs). reflexivity.
+  Qed.
+
+  (* assignments do not depend on output names at all *)
+  Theorem sem_comp_rename c : forall imp r, sem_comp (rename_comp rho c) imp r = sem_comp c imp r.
+  Proof.
+    induction c as [root vs ss outs IH] using comp_nested_ind. intros imp r.
+    rewrite rename_comp_eq, !sem_comp_eq.
+    destruct (find_vertex vs root) as [rv|]; [|reflexivity].
+    pose proof (rename_steps_folds ss) as Hf.
+    rewrite (enter_agree re g args vs vs _ ss imp (Asg [] []) rv r (fun x => eq_refl) Hf).
+    destruct (enter vs ss imp (Asg [] []) rv r); [|reflexivity].
+    apply sem_steps_ext. now apply rename_steps_fn.
+  Qed.
+
+  (* ---- projection ---- *)
+  Hypothesis rho_inj : forall a b, rho a = rho b -> a = b.
+
+  Fixpoint names_steps (ss : list step) : list string :=
+    match ss with
+    | [] => []
+    | SEdge _ :: r => names_steps r
+    | SFold h sub :: r => fo_fsout h ++ all_output_names sub ++ names_steps r
+    end.
+
+  Lemma all_output_names_eq root vs ss outs :
+    all_output_names (mkComp root vs ss outs) = map fst outs ++ names_steps ss.
+  Proof.
+    reflexivity.
+  Qed.
+
+  Lemma all_output_names_rename c : all_output_names (rename_comp rho c) = map rho (all_output_names c).
+  Proof.
+    induction c as [root vs ss outs IH] using comp_nested_ind.
+    rewrite rename_comp_eq, !all_output_names_eq, map_app, !map_map. cbn [fst]. f_equal.
+    induction IH as [|s t Hs _ IHt]; [reflexivity|].
+    destruct s as [e|h sub]; cbn [rename_steps names_steps]; [exact IHt|].
+    rewrite !map_app, <- IHt, Hs. reflexivity.
+  Qed.
+
+  Definition fold_row (a : asg) (h : fold_hdr) (sub : ir_component) : row :=
+    match lookup_N (fo_eid h) (a_f a) with
+    | Some (Some l) =>
+        map (fun n => (n, U64 (Z.of_nat (List.length l)))) (fo_fsout h) ++
+        (let rows := map (project g sub) l in
+         map (fun n => (n, List (map (fun r => row_get r n) rows))) (all_output_names sub))
+    | _ => map (fun n => (n, Null)) (fo_fsout h ++ all_output_names sub)
+    end.
+
+  Fixpoint project_steps (a : asg) (ss : list step) : row :=
+    match ss with
+    | [] => []
+    | SEdge _ :: r => project_steps a r
+    | SFold h sub :: r => fold_row a h sub ++ project_steps a r
+    end.
+
+  Lemma project_eq root vs ss outs a :
+    project g (mkComp root vs ss outs) a =
+    map (fun o => (fst o, match find_vertex vs (cf_vid (snd o)), lookup_N (cf_vid (snd o)) (a_v a) with
+                          | Some vtx, Some (Some v) => g_prop g (v_type vtx) (cf_name (snd o)) v
+                          | _, _ => Null
+                          end)) outs ++ project_steps a ss.
+  Proof.
+    cbn [project]. f_equal.
+    induction ss as [|[e|h c] t IH]; cbn [project_steps]; [reflexivity|exact IH|].
+    unfold fold_row. now rewrite IH.
+  Qed.
+
+  Lemma lookup_rename_row r n : lookup_str (rho n) (rename_row rho r) = lookup_str n r.
+  Proof.
+    induction r as [|[k v] r IH]; [reflexivity|]. cbn [rename_row map lookup_str fst snd].
+    fold (rename_row rho r). rewrite IH.
+    destruct (String.eqb_spec n k) as [->|Hne]; [now rewrite String.eqb_refl|].
+    destruct (String.eqb_spec (rho n) (rho k)) as [He|_]; [now apply rho_inj in He|reflexivity].
+  Qed.
+
+  Lemma lookup_rename_row_other r m : (forall n, m <> rho n) -> lookup_str m (rename_row rho r) = None.
+  Proof.
+    intros Hm. induction r as [|[k v] r IH]; [reflexivity|]. cbn [rename_row map lookup_str fst snd].
+    fold (rename_row rho r). destruct (String.eqb_spec m (rho k)) as [He|_]; [now apply Hm in He|exact IH].
+  Qed.
+
+  Lemma row_get_rename r n : row_get (rename_row rho r) (rho n) = row_get r n.
+  Proof. unfold row_get. now rewrite lookup_rename_row. Qed.
+
+  Theorem project_rename c : forall a, project g (rename_comp rho c) a = rename_row rho (project g c a).
+  Proof.
+    induction c as [root vs ss outs IH] using comp_nested_ind. intros a.
+    rewrite rename_comp_eq, !project_eq. unfold rename_row. rewrite map_app, !map_map. cbn [fst snd]. f_equal.
+    induction IH as [|s t Hs _ IHt]; [reflexivity|].
+    destruct s as [e|h sub]; cbn [rename_steps project_steps]; [exact IHt|].
+    rewrite map_app, <- IHt. f_equal. unfold fold_row. cbn [rename_hdr fo_eid fo_fsout].
+    rewrite all_output_names_rename.
+    destruct (lookup_N (fo_eid h) (a_f a)) as [[l|]|].
+    - rewrite map_app, !map_map. cbn [fst snd]. f_equal.
+      apply map_ext. intros n. f_equal. f_equal. rewrite !map_map. apply map_ext. intros x.
+      rewrite Hs. apply row_get_rename.
+    - rewrite <- map_app, !map_map. reflexivity.
+    - rewrite <- map_app, !map_map. reflexivity.
+  Qed.
+
+  Lemma sort_row_renamed r : row_renamed rho (sort_row (rename_row rho r)) (sort_row r).
+  Proof.
+    split.
+    - intros n. now rewrite !lookup_sort_row, lookup_rename_row.
+    - intros m Hm. rewrite lookup_sort_row. now apply lookup_rename_row_other.
+  Qed.
+
+  (* renaming the outputs by an injective map renames the keys of every row and changes nothing else:
+     same number of rows, same order, same values *)
+  Theorem rename_outputs_rows q :
+    Forall2 (row_renamed rho) (sem (with_comp q (rename_comp rho (q_comp q)))) (sem q).
+  Proof.
+    unfold Sem.sem. cbn [with_comp q_comp q_root_name q_root_params].
+    rewrite (flat_map_ext _ (fun s => sem_comp (q_comp q) [] (Some s))) by (intros s; apply sem_comp_rename).
+    induction (flat_map (fun s => sem_comp (q_comp q) [] (Some s)) (g_starts g (q_root_name q) (q_root_params q)))
+      as [|a l IH]; cbn [map]; constructor; [|exact IH].
+    rewrite project_rename. apply sort_row_renamed.
+  Qed.
+End Rename.
+
+(* ================= datasets: discharging the graph hypotheses ================= *)
+Lemma lookup_N_In {A} k (l : list (N * A)) a : lookup_N k l = Some a -> In (k, a) l.
+Proof.
+  induction l as [|[k' a'] l IH]; cbn [lookup_N]; [discriminate|].
+  destruct (N.eqb_spec k k') as [->|_]; [intros [= ->]; now left|intros H; right; now apply IH].
+Qed.
+
+Lemma lookup_str_In {A} k (l : list (string * A)) a : lookup_str k l = Some a -> In (k, a) l.
+Proof.
+  induction l as [|[k' a'] l IH]; cbn [lookup_str]; [discriminate|].
+  destruct (String.eqb_spec k k') as [->|_]; [intros [= ->]; now left|intros H; right; now apply IH].
+Qed.
+
+Theorem ds_props_wf_ok d : ds_props_wf d = true ->
+  forall ty fld v, wf (g_prop (graph_of_dataset d) ty fld v) = true.
+Proof.
+  intros H ty fld v. cbn [graph_of_dataset g_prop]. unfold ds_prop.
+  destruct (String.eqb fld typename_field); [reflexivity|].
+  destruct (lookup_N v (d_props d)) as [ps|] eqn:E; [|reflexivity].
+  destruct (lookup_str fld ps) as [x|] eqn:E2; [|reflexivity].
+  unfold ds_props_wf in H. rewrite forallb_forall in H. specialize (H _ (lookup_N_In _ _ _ E)).
+  cbn [snd] in H. rewrite forallb_forall in H. exact (H _ (lookup_str_In _ _ _ E2)).
+Qed.
+
+Lemma ds_nbrs_in_ids d ty name v n : In n (ds_nbrs d ty name [] v) -> In n (ds_nbr_ids d).
+Proof.
+  unfold ds_nbrs, ds_nbr_ids. destruct (lookup_N v (d_edges d)) as [es|] eqn:E; [|intros []].
+  destruct (lookup_str name es) as [ns|] eqn:E2; [|intros []].
+  rewrite (filter_true_id (params_keep []) ns) by reflexivity. intros Hn.
+  apply in_flat_map. exists (v, es). split; [now apply lookup_N_In|]. cbn [snd].
+  apply in_flat_map. exists (name, ns). split; [now apply lookup_str_In|exact Hn].
+Qed.
+
+Lemma ds_ids_ok_spec d : ds_ids_ok d = true ->
+  forall ty n, In n (ds_nbr_ids d) -> int_val (g_prop (graph_of_dataset d) ty "id" n) = Some (Z.of_N n).
+Proof.
+  intros H ty n Hn. unfold ds_ids_ok in H. rewrite forallb_forall in H. specialize (H n Hn).
+  cbn [graph_of_dataset g_prop]. change (ds_prop d ty "id" n) with (ds_prop d "" "id" n).
+  destruct (int_val (ds_prop d "" "id" n)) as [z|]; [|discriminate]. apply Z.eqb_eq in H. now subst.
+Qed.
+
+(* `edge(lo: k)` without @optional/@recurse has exactly the rows of `edge` (lo unset) with the filter
+   `id >= $p`, p = k, on the destination vertex — for every dataset whose vertices carry their number as "id" *)
+Theorem lo_param_is_ge_filter re d args q root vs ss outs eid tovid ps1 ps2 p kv k fty t :
+  ds_ids_ok d = true -> lookup_str p args = Some kv -> int_val kv = Some k ->
+  q_comp q = mkComp root vs ss outs -> entered_only_by eid tovid (q_comp q) = true ->
+  (forall e, In (SEdge e) ss -> e_eid e = eid ->
+             e_to e = tovid /\ e_rec e = None /\ e_optional e = false /\ e_params e = ps1 ++ ("lo", kv) :: ps2) ->
+  sem re (graph_of_dataset d) args
+      (with_comp q (param_to_filter eid (ps1 ++ ("lo", Null) :: ps2) tovid (id_ge_filter p fty t) (q_comp q))) =
+  sem re (graph_of_dataset d) args q.
+Proof.
+  intros Hids Hp Hk Hq Hent He.
+  apply (param_edge_is_filter_rows re (graph_of_dataset d) args (dataset_params_filter_nbrs d)
+           eid tovid _ (id_ge_filter p fty t) (fun n => Z.leb k (Z.of_N n)) (fun n => In n (ds_nbr_ids d))
+           (fun ty name v n => ds_nbrs_in_ids d ty name v n)) with (root := root) (vs := vs) (ss := ss) (outs := outs);
+    try assumption.
+  - intros vs0 ss0 imp a ty n Hn.
+    apply (id_ge_fpass re (graph_of_dataset d) args (fun n => In n (ds_nbr_ids d)) (ds_ids_ok_spec d Hids) p kv k fty t Hp Hk);
+      exact Hn.
+  - intros e Hin Heid. destruct (He e Hin Heid) as (H1 & H2 & H3 & H4). repeat split; try assumption.
+    intros n. rewrite H4. apply (lo_params_split args p kv k Hp Hk).
+Qed.
+
+(* `=` / `!=` never panic on well-formed values: the no-panic side condition of the partition theorem *)
+Theorem equals_filter_no_panic re g args vid ty op fld fty x t :
+  (op = Equals \/ op = NotEquals) ->
+  (forall ty fld v, wf (g_prop g ty fld v) = true) -> wf (arg_or_null args x) = true ->
+  filter_no_panic re g args vid ty (mkVF op fld fty (Some (AVar x t))).
+Proof.
+  intros Hop Hg Hx s vs ss imp a r Hr. cbn [vf_arg vf_op vf_field option_map arg_value] in *.
+  injection Hr as <-. fold (arg_or_null args x).
+  destruct Hop as [-> | ->];
+    cbn [apply_tagged apply_filter_op_with_tagged_argument apply_filter_op negb]; unfold not_;
+    rewrite (equals_ok _ _ (Hg ty fld s) Hx); eexists; reflexivity.
+Qed.
+
+(* ================= a filter INSIDE a fold ================= *)
+(* Without fold-count filters the fold step yields exactly one assignment before and after, and the
+   element list it records shrinks: the number of assignments at that step is unchanged.  (With a
+   fold-count filter such as `count = 0` the new query can have MORE rows: Properties/C23.v has the
+   witness.  Propagating "same assignments up to this fold's shorter element list" through the later
+   steps needs that no later filter / tag / fold import reads this fold's count; that congruence is
+   not proved here.) *)
+Theorem add_filter_in_fold_step re g args vs ss imp h sub vid f a :
+  fo_post h = [] ->
+  let new := step_fold re g args vs ss imp h (sem_comp re g args (add_filter vid f sub)) a in
+  let old := step_fold re g args vs ss imp h (sem_comp re g args sub) a in
+  (new = [] /\ old = []) \/
+  (new = [set_af a (fo_eid h) None] /\ old = [set_af a (fo_eid h) None]) \/
+  exists l' l, sublist l' l /\ new = [set_af a (fo_eid h) (Some l')] /\ old = [set_af a (fo_eid h) (Some l)].
+Proof.
+  intros Hpost. cbn zeta. unfold step_fold. rewrite Hpost. cbn [forallb].
+  destruct (find_vertex vs (fo_from h)) as [fromv|]; [|left; split; reflexivity].
+  destruct (lookup_N (fo_from h) (a_v a)) as [[v|]|]; [|right; left; split; reflexivity|right; left; split; reflexivity].
+  right. right. eexists. eexists. split; [|split; reflexivity].
+  apply sublist_flat_map; [apply sublist_refl|]. intros n. apply add_filter_shrinks_asg.
+Qed.
